@@ -102,7 +102,7 @@ EvExc == /\ Ev.k = "exc" /\ Reject("mapper-raised", Ev.m, 0)
 EvCopy ==
     /\ Ev.k = "copy"
     /\ IF cur # 0 \/ Ev.m \notin 1..Len(ms) \/ Ev.to # Len(ms) + 1 THEN Reject("malformed-trace", 0, 0)
-       ELSE LET s2 == CopyOf(ms[Ev.m]) IN
+       ELSE LET s2 == CopyHow(ms[Ev.m], Ev.how) IN
        IF Ev.proj # ProjOf(s2) THEN Reject("state-mismatch", Ev.m, 0)
        ELSE /\ ms' = Append(ms, s2)
             /\ meta' = Append(meta, [kind |-> "copy", inh |-> Len(s2.list)])
